@@ -267,6 +267,17 @@ func (r *stackRun[T]) apply(op Op) string {
 		if !r.b.eq(got, r.topFirst()[:j]) {
 			return r.errf("Each (stopped at %d) lists %s, reference (newest first) %s", j, r.b.list(got), r.b.wants(r.topFirst()))
 		}
+		// a second Each from inside the callback of the first, at element j
+		var outer, inner []T
+		r.s.Each(func(v T) bool {
+			if outer = append(outer, v); len(outer) == j {
+				r.s.Each(func(w T) bool { inner = append(inner, w); return true })
+			}
+			return true
+		})
+		if !r.b.eq(outer, r.topFirst()) || !r.b.eq(inner, r.topFirst()) {
+			return r.errf("Each with a second Each run inside its callback (at element %d) lists %s and %s, reference (newest first) %s", j, r.b.list(outer), r.b.list(inner), r.b.wants(r.topFirst()))
+		}
 		return ""
 	case "clear":
 		r.s.Clear()
@@ -332,6 +343,7 @@ func runStackOf[T any](c SeqCase, o *vk.Obs, b *bound[T]) string {
 		return msg
 	}
 	for i, op := range c.Ops {
+		o.Step() // interleaved execution (vk.Interleave) switches to the other case here
 		r.step = i
 		if msg := guarded(ctx, func() string { return r.apply(op) }); msg != "" {
 			return msg
